@@ -236,7 +236,7 @@ func dnlList(m map[dnlKey]bool) []map[string]any {
 	return out
 }
 
-var fwdScanNames = []string{"/a", "/a/b", "/a/b/c", "/a/b/c/e", "/d", "/d/f", "/localhost/x", "/localhost/x/y", "/h", "/r/x"}
+var fwdScanNames = []string{"/", "/a", "/a/b", "/a/b/c", "/a/b/c/e", "/d", "/d/f", "/localhost/x", "/localhost/x/y", "/h", "/r/x"}
 
 func (x *fwdExec) ticksOf(ns int64) int {
 	d := time.Unix(0, ns).Sub(x.t0)
@@ -310,10 +310,18 @@ func (x *fwdExec) step1(a fwdAct) map[string]any {
 			}
 		}
 		ex := -1
+		inrec := false
 		for _, en := range after.Entries {
 			if en.Name.Equal(nm(name)) && en.CanBePrefix == in.Cbp && en.MustBeFresh == in.Mbf &&
-				fmt.Sprint(hintOf(en.Hint)) == fmt.Sprint(wantHint) && en.Scheduled {
-				ex = x.ticksOf(en.SchedAt)
+				fmt.Sprint(hintOf(en.Hint)) == fmt.Sprint(wantHint) {
+				if en.Scheduled {
+					ex = x.ticksOf(en.SchedAt)
+				}
+				for _, g := range en.InFaces {
+					if g == uint64(in.F) {
+						inrec = true
+					}
+				}
 			}
 		}
 		Sset := map[int]bool{}
@@ -332,7 +340,7 @@ func (x *fwdExec) step1(a fwdAct) map[string]any {
 		}
 		ev["i"] = map[string]any{"f": in.F, "n": in.N, "cbp": in.Cbp, "mbf": in.Mbf, "nonce": in.Nonce, "life": in.Life,
 			"hop": in.Hop, "hints": hintsJ, "nh": in.Nh, "dtok": in.Dtok, "dnl": known}
-		ev["o"] = map[string]any{"S": sortedInts(Sset), "csn": csn, "csw": csw, "ex": ex}
+		ev["o"] = map[string]any{"S": sortedInts(Sset), "csn": csn, "csw": csw, "ex": ex, "inrec": inrec}
 		ev["oi"] = append([]outI{}, x.is...)
 		ev["od"] = append([]outD{}, x.ds...)
 	case "D":
@@ -557,7 +565,7 @@ func runFwdExecution(t *testing.T, w *traceWriter, capacity int, algo string, ne
 }
 
 // ---- seeded generator ----------------------------------------------------------------
-var fwdINames = []string{"/a", "/a/b", "/a/b/c", "/d", "/localhost/x"}
+var fwdINames = []string{"/a", "/a/b", "/a/b/c", "/d", "/localhost/x", "/"}
 var fwdDNames = []string{"/a", "/a/b", "/a/b/c", "/a/b/c/e", "/d", "/d/f", "/localhost/x", "/localhost/x/y"}
 
 func genFwdAct(rng *rand.Rand, x *fwdExec, i, nEv int) fwdAct {
